@@ -202,15 +202,14 @@ func framing(fields []Field, isResponse bool) (kind string, length int64, err er
 func DecodeChunked(b []byte) (body []byte, trailers []Field, n int, err error) {
 	pos := 0
 	for {
-		i := bytes.Index(b[pos:], []byte("\r\n"))
+		// the size line ends at LF; a preceding CR belongs to the terminator. (A bare LF
+		// is tolerated: it does not change which bytes are body bytes.)
+		i := bytes.IndexByte(b[pos:], '\n')
 		if i < 0 {
-			if j := bytes.IndexByte(b[pos:], '\n'); j >= 0 {
-				return nil, nil, 0, malformed("bare LF in chunk-size line")
-			}
 			return nil, nil, 0, ErrIncomplete
 		}
-		line := string(b[pos : pos+i])
-		pos += i + 2
+		line := strings.TrimSuffix(string(b[pos:pos+i]), "\r")
+		pos += i + 1
 		sz := line
 		if k := strings.IndexByte(line, ';'); k >= 0 {
 			sz = line[:k]
